@@ -608,6 +608,9 @@ pub fn run(ctx: &mut Ctx) -> Result<(), Violation> {
                 every result must equal plain::build(table(result)), results are pairwise equal iff their tables are equal. A third stage runs histories whose operands cross two environments (only ==, hash, ordered, reduced are judged there). Non-trivial = route case whose function depends on >= 2 variables, \
                 or a history of >= 10 operations with >= 4 operation kinds including a quantifier/counting/fp/model/retain; distinct by (table, ids) resp. operation list."
         .to_string();
+    ctx.rule.push_str(" Wide stage: ");
+    ctx.rule.push_str(crate::wide::RULE);
+    ctx.rule.push_str(" C02 additionally requires of every wide result: ordered, reduced, `==` and hash-equal to the reference diagram, and equal to the result of another route (De Morgan, not-eq).");
     ctx.assume("the table of a result is read by the harness walker; the expected diagram is built from that table with plain enum values (no BDDEnv)");
     ctx.assume("hash inequality of different functions is not asserted (collisions are counted only)");
 
@@ -720,10 +723,15 @@ pub fn run(ctx: &mut Ctx) -> Result<(), Violation> {
         check_history_cross(&opsv, &sel)
     });
     ctx.stage("random-histories-operands-crossing-environments", false, r)?;
+    let wc = ctx.tier.cases(4_000, 150_000);
+    crate::wide::stage_conn(ctx, "wide-functions-canonical-results", true, wc)?;
     Ok(())
 }
 
 pub fn replay(case: &Value) -> Check {
+    if let Some(r) = crate::wide::replay(case) {
+        return r;
+    }
     match case["kind"].as_str() {
         Some("routes") => {
             let tt = TT::from_hex(case["tt"].as_str().unwrap_or(""));
